@@ -21,7 +21,7 @@ ASSUMPTIONS = [
     "a short that survives contraction as a short is accepted (electrically harmless); dropped non-short branches must carry exactly zero voltage in the original",
     "node identity after contraction is judged per surviving label: a label that survives must keep its original potential",
 ]
-N_NET = {'quick': 3200, 'thorough': 40000}
+N_NET = {'quick': 6400, 'thorough': 40000}
 
 
 def generate(tier, seed, shard, nshards):
